@@ -69,6 +69,32 @@ def expected_mfp(n):
     return 'template <%s> struct MemberFuncPtr%d {void (X::*ptr)(%s);};' % (tparams, n, _tl(n, False))
 
 
+EXPECTED_UNTYPED = ('struct MemberFuncPtr { void (MemberFuncPtr::*ptr)(); '
+                    'template <typename M> MemberFuncPtr(M member) {Memory::copy(&ptr, &member, sizeof(ptr));} '
+                    'bool operator==(const MemberFuncPtr& other) const {return ptr == other.ptr;} '
+                    'bool operator>(const MemberFuncPtr& other) const {return Memory::compare(&ptr, &other.ptr, sizeof(ptr)) > 0;} '
+                    'bool operator<(const MemberFuncPtr& other) const {return Memory::compare(&ptr, &other.ptr, sizeof(ptr)) < 0;} '
+                    'MemberFuncPtr() {} };')
+
+
+def untyped_mfp(src):
+    """the text of `struct MemberFuncPtr { ... };` (the untyped key under which signals and slots are stored: the model's
+    signal / slot ids are equal exactly when all sizeof(ptr) bytes - function address AND this-adjustment - are), or None"""
+    ms = list(re.finditer(r'\bstruct\s+MemberFuncPtr\s*\{', src))
+    if len(ms) != 1:
+        return None
+    depth = 0
+    for k in range(ms[0].end() - 1, len(src)):
+        if src[k] == '{':
+            depth += 1
+        elif src[k] == '}':
+            depth -= 1
+            if depth == 0:
+                m = re.match(r'\s*;', src[k + 1:])
+                return src[ms[0].start():k + 1 + (m.end() if m else 0)]
+    return None
+
+
 def _pieces(src):
     """every `template<...> ...` item of the header, cut at the next `template`, access label or end of class"""
     out = []
@@ -136,7 +162,14 @@ def compare_templates():
                 diffs.append((name, n, 'the %d-argument %s of %s is not the template written out for %d arguments: %s' % (n, name, REL, n, d)))
         for n, extra in by_arity.items():
             diffs.append((name, n if 0 <= n <= 8 else None, '%s: unexpected definition with %d typename parameters in %s' % (name, n, REL)))
-    summary = 'Callback.hpp: 9 emit + 9 connect + 9 disconnect + 9 MemberFuncPtr<N> definitions compared with the single template each'
+    got = untyped_mfp(src)
+    if got is None:
+        diffs.append(('MemberFuncPtr', None, 'struct MemberFuncPtr: not found exactly once in %s' % REL))
+    else:
+        d = _first_diff(toks(EXPECTED_UNTYPED), toks(got))
+        if d:
+            diffs.append(('MemberFuncPtr', None, 'struct MemberFuncPtr of %s (the untyped key of signals and slots: copy and comparison of all sizeof(ptr) bytes) differs: %s' % (REL, d)))
+    summary = 'Callback.hpp: 9 emit + 9 connect + 9 disconnect + 9 MemberFuncPtr<N> definitions compared with the single template each, struct MemberFuncPtr with its expected text'
     return diffs, summary
 
 
